@@ -76,16 +76,36 @@ def _check_tree(doc, rows, model, expect_class=None):
 
 
 # ------------------------------------------------------------------ C02.a every layout, real importers
-def ob_a(layout: int) -> bool:
+BLANKS = ('no blank line', 'blank line after the header line', 'blank line in front of the last two lines', 'blank first line and two blank lines in the middle')
+
+
+def _with_blanks(text, blank):
+    """Empty lines are not lines of the grid: 'one stage per NON-EMPTY line'."""
+    if not blank:
+        return text
+    ls = text.split('\n')
+    body = ls[:-1] if ls[-1] == '' else ls
+    if blank == 1:
+        body = body[:1] + [''] + body[1:]
+    elif blank == 2:
+        body = body[:-2] + [''] + body[-2:]
+    else:
+        mid = len(body) // 2
+        body = [''] + body[:mid] + ['', ''] + body[mid:]
+    return '\n'.join(body) + '\n'
+
+
+def ob_a(layout: int, blank: int = 0) -> bool:
     assume(0 <= layout < len(LAYOUTS))
-    return _a_body(choose(layout, len(LAYOUTS)))
+    assume(0 <= blank < len(BLANKS))
+    return _a_body(choose(layout, len(LAYOUTS)), choose(blank, len(BLANKS)))
 
 
 @native
-def _a_body(i):
+def _a_body(i, blank=0):
     heads, lay = LAYOUTS[i]
     rows = sp.build_rows(list(heads), lay)
-    text = sp.to_text(rows)
+    text = _with_blanks(sp.to_text(rows), blank)
     model = sp.analyse(rows)
     doc, errs = kp.loads(text)
     check(not errs, f'import errors {errs} on {text!r}')
@@ -252,15 +272,15 @@ def _c_body(n, w, split, kind):
     return True
 
 
-def _desc_a(layout):
+def _desc_a(layout, blank=0):
     heads, lay = LAYOUTS[layout]
-    return {'text': sp.to_text(sp.build_rows(list(heads), lay))}
+    return {'text': _with_blanks(sp.to_text(sp.build_rows(list(heads), lay)), blank), 'blank lines': BLANKS[blank]}
 
 
 OBLIGATIONS = [
-    Ob(id='C02.a', fn=ob_a, title='every spine-operator layout: stages, cells, parents, headers, spine ids (real importers)',
-       shard_of=lambda layout: layout, shards={'quick': 16, 'thorough': 16}, budget_s={'quick': 170, 'thorough': 2400},
-       witnesses=[{'layout': 0}, {'layout': 50}], min_confirmed=300, enumerated='layout selector',
+    Ob(id='C02.a', fn=ob_a, title='every spine-operator layout x 4 blank-line plans: one stage per non-empty line, cells, parents, headers, spine ids (real importers)',
+       shard_of=lambda layout, blank=0: layout, shards={'quick': 16, 'thorough': 16}, budget_s={'quick': 170, 'thorough': 2400},
+       witnesses=[{'layout': 0, 'blank': 0}, {'layout': 50, 'blank': 3}], min_confirmed=300, enumerated='layout selector, blank-line plan (4)',
        bounds={'quick': '8 header sets (1-3 spines incl. an unknown type); operator rows: 3 (1 spine), 2 (2 spines: kern+text, kern+kern; 3 spines kern+kern+harm), 1 otherwise; <= 4 live columns',
                'thorough': 'operator rows: 4 (1 spine), 3 (2 spines), 2 (3 spines)'}, describe=_desc_a),
     Ob(id='C02.b', fn=ob_b, title='the line reader takes quotes, commas, spaces, backslashes and non-ASCII literally',
